@@ -480,13 +480,14 @@ type evt struct {
 	done  chan struct{} // closed when the publishing Publish call has returned
 }
 
-const callVariants = 4
+const callVariants = 5
 
 type bench struct {
 	w       *world.World
 	rec     record
 	hs      []*handler
-	lf      api.FeatureLocalInterface
+	lf      api.FeatureLocalInterface // local server feature holding data
+	cf      api.FeatureLocalInterface // local client feature (subscribes to a peer's server feature)
 	fn      model.FunctionType
 	nextTag atomic.Int64
 	base    int        // goroutine count with the case quiescent
@@ -513,6 +514,7 @@ func newBench(nHandlers int, scripts [][][]action) *bench {
 	b.lf = b.w.AddLocalFeature(le, world.FeatSpec{Type: model.FeatureTypeTypeDeviceConfiguration, Role: model.RoleTypeServer,
 		Funcs: []world.FuncSpec{{Fn: b.fn, Read: true}}})
 	b.lf.SetData(b.fn, descriptionList(0))
+	b.cf = b.w.AddLocalFeature(le, world.FeatSpec{Type: model.FeatureTypeTypeDeviceConfiguration, Role: model.RoleTypeClient})
 	for i := 0; i < nHandlers; i++ {
 		b.hs = append(b.hs, &handler{b: b, idx: i, scripts: scripts[i]})
 	}
@@ -705,6 +707,14 @@ func (b *bench) callStack(variant int, salt uint64) {
 			_ = d.Entities()
 		}
 		_ = b.w.Local.Entities()
+	case 4:
+		// subscribe the local client feature to the peer's server feature, if it is announced
+		if p := b.anyPeer(); p != nil {
+			if addr := p.FA([]uint{1}, 1); p.Dev.FeatureByAddress(addr) != nil {
+				_, _ = b.cf.SubscribeToRemote(addr)
+				_ = b.cf.HasSubscriptionToRemote(addr)
+			}
+		}
 	}
 }
 
